@@ -25,6 +25,10 @@ class HarnessError(Exception):
   pass
 
 
+class SimDeadlock(Exception):
+  """Every simulated thread waits for a lock held by another one."""
+
+
 # ---------------------------------------------------------------------------
 # policies
 # ---------------------------------------------------------------------------
@@ -44,6 +48,8 @@ class RandomWalk:
 
   def on_exit(self, runnable):
     return self.rng.choice(runnable)
+
+  on_block = on_exit
 
 
 class PCT:
@@ -73,6 +79,8 @@ class PCT:
   def on_exit(self, runnable):
     return self._best(runnable)
 
+  on_block = on_exit
+
 
 class RunToPause:
   """Switches only at explicit pause points (prob q) and at thread exit."""
@@ -90,6 +98,8 @@ class RunToPause:
 
   def on_exit(self, runnable):
     return self.rng.choice(runnable)
+
+  on_block = on_exit
 
 
 class ScriptedPolicy:
@@ -132,7 +142,7 @@ class ScriptedPolicy:
       return tid
     self.used += 1
     turn = self.turns[self.i]
-    ended_by_exit = len(turn) > 2 and turn[2]
+    ended_by_exit = len(turn) > 2 and turn[2]   # 1 = exit, 2 = blocked on a lock
     if self.used >= turn[1] and not ended_by_exit:
       return self._advance(runnable, tid)
     return tid
@@ -141,6 +151,8 @@ class ScriptedPolicy:
     if self.free:
       return min(runnable)
     return self._advance(runnable, None)
+
+  on_block = on_exit
 
 
 def make_policy(desc, rng, n_threads):
@@ -183,6 +195,9 @@ class Sched:
     self.all_done = threading.Event()
     self.cur = None
     self.hooks = []   # fn(tid) called at every step while holding the baton
+    self.blocked = {}     # tid -> SimLock it waits for
+    self.lock_waits = 0
+    self.deadlock = None
 
   # -- identity ------------------------------------------------------------
   def thread_id(self):
@@ -225,7 +240,34 @@ class Sched:
     self._step(tag, True)
 
   def runnable(self):
-    return [t for t, d in enumerate(self.done) if not d]
+    out = []
+    for t, d in enumerate(self.done):
+      if d:
+        continue
+      lk = self.blocked.get(t)
+      if lk is not None and lk.locked():
+        continue
+      out.append(t)
+    return out
+
+  def block(self, tid, lock):
+    """Called by SimLock.acquire: `tid` cannot proceed until `lock` is free."""
+    self.lock_waits += 1
+    self.blocked[tid] = lock
+    rest = [t for t in self.runnable() if t != tid]
+    if not rest:
+      self.deadlock = (f'thread {tid} waits for a lock held by {lock._owner}; '
+                       f'no other thread can run (blocked: {sorted(self.blocked)})')
+      self.all_done.set()
+      self.sems[tid].acquire()   # park forever; the run is over
+    nxt = self.policy.on_block(rest)
+    self.switches += 1
+    self.turns[-1][2] = 2
+    self.turns.append([nxt, 0, 0])
+    self.cur = nxt
+    self.sems[nxt].release()
+    self.sems[tid].acquire()
+    self.blocked.pop(tid, None)
 
   def _step(self, where, is_pause):
     tid = self.tls.tid
@@ -262,6 +304,9 @@ class Sched:
       self.turns[-1][2] = 1
       rest = self.runnable()
       if not rest:
+        if not all(self.done):
+          self.deadlock = (f'thread {tid} finished; the remaining threads all wait '
+                           f'for locks (blocked: {sorted(self.blocked)})')
         self.all_done.set()
       else:
         nxt = self.policy.on_exit(rest)
@@ -278,11 +323,17 @@ class Sched:
                for i, f in enumerate(fns)]
     for t in threads:
       t.start()
+    from fsim import simlock
+    simlock.CURRENT = self
     first = self.policy.first(list(range(n)))
     self.turns.append([first, 0, 0])
     self.cur = first
     self.sems[first].release()
-    if not self.all_done.wait(self.wall_guard_s):
+    ok = self.all_done.wait(self.wall_guard_s)
+    simlock.CURRENT = None
+    if self.deadlock:
+      raise SimDeadlock(self.deadlock)
+    if not ok:
       raise HarnessError(
           f'scheduler made no progress for {self.wall_guard_s}s '
           f'(cur={self.cur}, steps={self.steps}, done={self.done})')
